@@ -205,6 +205,38 @@ func (fe *FnExec) applyContract(st *State, in ssa.Instruction, ci calleeInfo, al
 		}
 		vars[cg.Name] = Binding{v, t}
 	}
+	for _, gp := range cc.GhostParams {
+		if _, ok := vars[gp]; !ok {
+			vars[gp] = Binding{Scalar{st.freshConst("ghost."+gp, SInt)}, tInt}
+		}
+	}
+	// call-site assertions of the caller's contract (in the caller's vocabulary,
+	// plus $i for the arguments and the ghost arguments by name)
+	nAssert := 0
+	for _, cg := range fe.C.CallGhosts {
+		if cg.Callee != ci.short || cg.Ordinal != ord || cg.Kind != "assert" {
+			continue
+		}
+		nAssert++
+		lenv := fe.localEnv(st, fe.entry)
+		for k, v := range vars {
+			if strings.HasPrefix(k, "$") {
+				lenv.vars[k] = v
+			}
+		}
+		for _, gp := range cc.GhostParams {
+			lenv.vars[gp] = vars[gp]
+		}
+		t, err := lenv.evalBool(cg.Val)
+		if err != nil {
+			fe.fail("call %s#%d assert (%s): %v", cg.Callee, cg.Ordinal, cg.Text, err)
+		}
+		tags := cg.Tags
+		if len(tags) == 0 {
+			tags = []string{"support"}
+		}
+		fe.assert(st, t, fmt.Sprintf("%s/assert#%d", site, nAssert), "requires", tags, cg.Text, in.Pos())
+	}
 	pre := st.snapshot()
 	env := &Env{fe: fe, st: st, old: pre, vars: vars, pkg: cc.Pkg, qn: &fe.qn}
 	for i, cl := range cc.Requires {
@@ -232,7 +264,10 @@ func (fe *FnExec) applyContract(st *State, in ssa.Instruction, ci calleeInfo, al
 		if fe.Mode == "permissive" {
 			break
 		}
-		ck := m.text + "|" + m.ref.S
+		ck := m.text + "|" + m.ref.S + "|" + m.key
+		if m.kind == "loc" {
+			ck = m.text + "|" + m.ref.S
+		}
 		if checked[ck] {
 			continue
 		}
@@ -247,8 +282,18 @@ func (fe *FnExec) applyContract(st *State, in ssa.Instruction, ci calleeInfo, al
 				if mm.kind == "pix" {
 					alts = append(alts, Eq(mm.ref, m.ref))
 				}
+				if mm.kind == "key" && mm.key == m.key {
+					alts = append(alts, TTrue)
+				}
 			}
 			g = Or(alts...)
+		case "key":
+			g = TFalse
+			for _, mm := range fe.modset {
+				if mm.kind == "key" && mm.key == m.key {
+					g = TTrue
+				}
+			}
 		}
 		fe.assert(st, g, fmt.Sprintf("%s/frame:%s", site, m.text), "frame", []string{"support"}, "callee may modify "+m.text+" - must be allowed by the caller's modifies", in.Pos())
 	}
@@ -347,6 +392,13 @@ func (fe *FnExec) havocEntries(st *State, ents []modEntry, why string) {
 			if strings.HasSuffix(m.key, ".len") || strings.HasSuffix(m.key, ".off") || strings.HasSuffix(m.key, ".cap") {
 				st.assume(Ge(v, IntLit(0)), "")
 			}
+		case "key":
+			if done["key|"+m.key] {
+				continue
+			}
+			done["key|"+m.key] = true
+			arr := st.heapArr(m.key, m.sort)
+			st.heap[m.key] = st.freshConst("Hany."+m.key, arr.Sort)
 		case "pix":
 			k := "pix|" + m.ref.S
 			if done[k] {
@@ -491,7 +543,7 @@ func (fe *FnExec) calleeEffectKeys(st *State, in ssa.CallInstruction) (bool, map
 			}
 			for _, m := range es {
 				switch m.kind {
-				case "loc":
+				case "loc", "key":
 					keys[m.key] = m.sort
 				case "pix":
 					keys[m.key] = SArray(SInt, SArray(SInt, SInt))
